@@ -159,6 +159,7 @@ Call(e) ==
            [] e.a = "unlock"   -> /\ NotHeld("UnlockMaturedLock", e.id)
                                   /\ Chk(<<"payout before unlock start + duration", e.id>>, e.id \in Ids => Matured(e.id))
                                   /\ SFUnlock(e.id)
+           [] e.a = "force"    -> NotHeld("MsgForceUnlock", e.id) /\ SFForce(e.id, e.o, CoinsArg(e), e.rid, ToSet(conf.allowed))
            [] e.a = "fund"     -> FundSupply(SupplyOf(e))
            \* a validator jailed without slash, or released: nothing the property speaks of moves
            [] e.a \in {"jail", "unjail"} -> SFRefused
